@@ -555,6 +555,9 @@ fn body(case: &mut Case, mut rng0: jxlgen::rng::Rng, thorough: bool) -> Option<S
             if let Some(m) = counts.values().max() {
                 case.obs_set("max_executions_per_frame", m.to_string());
             }
+            // (see c07.rs: FailedReference next to an IncompleteFrame of the same schedule is the secondary
+            // symptom of the known reset race)
+            let primary_seen = !with_fault && results.lock().unwrap().iter().any(|(_, _, r)| matches!(r, Err(e) if e.contains("frame data is incomplete")));
             for (ti, k, r) in results.lock().unwrap().iter() {
                 match r {
                     Ok(b) => {
@@ -570,7 +573,7 @@ fn body(case: &mut Case, mut rng0: jxlgen::rng::Rng, thorough: bool) -> Option<S
                     }
                     Err(e) => {
                         if !with_fault {
-                            let sig = if e.contains("frame data is incomplete") { "spurious-error:IncompleteFrame" } else { "unexpected-error" };
+                            let sig = if e.contains("frame data is incomplete") || (primary_seen && e.contains("reference frame failed to render")) { "spurious-error:IncompleteFrame" } else { "unexpected-error" };
                             case.violation(sig, format!("caller {ti} keyframe {k}: {e} without any injected fault; scripts {:?}; trace tail {:?} [{}]", scripts, tail(&trace), anim.desc));
                             return None;
                         }
